@@ -225,11 +225,19 @@ def run_case(ctx, prog, table, policy, seed, ops=None, max_steps=300, id_mode='r
     root = w.start_workflow('wf', {})
     events = [{'ev': 'start'}]
     robs = [real_obs(w, mapper)]
-    ops = sorted(ops or [], key=lambda o: o['at'])
+    cond_ops = [o for o in (ops or []) if 'when' in o]
+    ops = sorted([o for o in (ops or []) if 'when' not in o], key=lambda o: o['at'])
     oi = 0
     step = 0
     unsupported = None
     while step < max_steps:
+        # conditional operator commands: stop as soon as commands sit in the backlog of a PAUSED workflow
+        for o in cond_ops:
+            if not o.get('done') and robs[-1]['wf'] == 'PAUSED' and robs[-1]['backlog'] > 0:
+                o['done'] = True
+                w.op('stop_workflow', root, o['state'], 'msg')
+                events.append({'ev': 'stop', 'state': o['state']})
+                robs.append(real_obs(w, mapper))
         while oi < len(ops) and ops[oi]['at'] <= step:
             o = ops[oi]
             oi += 1
@@ -270,9 +278,100 @@ def run_case(ctx, prog, table, policy, seed, ops=None, max_steps=300, id_mode='r
             'errors': list(w.errors), 'exhausted': step >= max_steps}
 
 
+FINAL = ('SUCCESS', 'ERROR', 'CANCELLED')
+
+
+def monitor_creation(ctx, events, robs, replay_obj):
+    """Direct reading of C11 / C10 on the REAL observations (independent of the model): no task execution is created
+    once the workflow is in a final state; none while it is PAUSED except by `resume`."""
+    for k in range(1, min(len(events), len(robs))):
+        before, after = robs[k - 1], robs[k]
+        ids0 = set(t[0] for t in before['tasks'])
+        new = sorted(t[0] for t in after['tasks'] if t[0] not in ids0)
+        if not new:
+            continue
+        joins = set(t['name'] for t in replay_obj.get('prog', {}).get('tasks', []) if t.get('join') is not None)
+        idle_joins = sorted(t[0] for t in after['tasks'] if t[0] in new and t[1] == 'IDLE' and t[0].split('#')[0] in joins)
+        if idle_joins:
+            # C04: a join starts only after its inbound tasks; an IDLE execution of a join is started like any task
+            ctx.count('core', 'hit:join-created-idle')
+            ctx.violation('C04 monitor: execution(s) %s of a JOIN task created IDLE (not WAITING): it starts without its '
+                          'join condition being checked (event %d: %s)' % (idle_joins, k, json.dumps(events[k])),
+                          dict(replay_obj, stream='core', step=k),
+                          {'kind': 'join-created-idle', 'via': 'command-restored-from-backlog'})
+        if before['wf'] in FINAL:
+            ctx.count('core', 'hit:task-created-after-final')
+            ctx.violation('C11 monitor: task execution(s) %s created in a workflow that was already %s (event %d: %s)' % (
+                new, before['wf'], k, json.dumps(events[k])), dict(replay_obj, stream='core', step=k),
+                {'kind': 'task-created-after-final', 'stream': 'core'})
+            return
+        if before['wf'] == 'PAUSED' and events[k].get('ev') != 'resume':
+            ctx.count('core', 'hit:task-created-while-paused')
+            ctx.violation('C10 monitor: task execution(s) %s created while the workflow was PAUSED (event %d: %s)' % (
+                new, k, json.dumps(events[k])), dict(replay_obj, stream='core', step=k),
+                {'kind': 'task-created-while-paused', 'stream': 'core'})
+            return
+
+
+def replay_events(prog, evs, seed=1, id_mode='random'):
+    """replay a model event list on the real engine WITHOUT the model: real observations after every event"""
+    from harness import live_replay as lr
+    from harness.engine_driver import EngineWorld
+    w = EngineWorld(seed=seed, id_mode=id_mode)
+    w.create_workflows(wfgen.render_yaml(prog))
+    mapper = Mapper(w)
+    root = None
+    robs = []
+
+    def enabled():
+        return [e for e in w.enabled() if not (e[0] == 'job' and e[1].func_name.endswith('_check_and_fix_integrity'))]
+    done = []
+    for e in evs:
+        if e['ev'] == 'start':
+            root = w.start_workflow('wf', {})
+        elif e['ev'] == 'pause':
+            w.op('pause_workflow', root)
+        elif e['ev'] == 'resume':
+            w.op('resume_workflow', root)
+        elif e['ev'] == 'stop':
+            w.op('stop_workflow', root, e['state'], 'msg')
+        else:
+            want = fmt({'k': 'runAction', 't': e['t'], 'occ': e.get('occ', 0)}) if e['ev'] == 'execute' else fmt(e['item'])
+            cand = [x for x in enabled() if fmt(mapper.item(x)) == want]
+            if not cand:
+                break
+            ok = e.get('ok', True)
+            w.deliver(cand[0], oracle=(lambda world, d, ok=ok: ('run', None) if ok else ('error', None)))
+        done.append(e)
+        robs.append(real_obs(w, mapper))
+    return done, robs
+
+
+def run_corpus(ctx):
+    """corpus/core/*.json: model event lists (theorem witnesses / former misses) replayed on the real engine,
+    rows + multiset of pending deliveries equal after every event"""
+    import glob
+    import os
+    from vlib import core
+    from harness import live_replay as lr
+    for f in sorted(glob.glob(os.path.join(core.VERIF, 'corpus', 'core', '*.json'))):
+        c = json.load(open(f))
+        evs = lr.parse_events(c['events']) if c['events'] and isinstance(c['events'][0], str) else c['events']
+        ctx.count('core', 'corpus')
+        out = lr.replay(c['prog'], evs, drv=ctx.driver())
+        ctx.evaluated('core', ['corpus', os.path.basename(f)], nontrivial=True)
+        if not out['ok']:
+            ctx.disagree('core', {'corpus': os.path.basename(f), 'prog': c['prog'], 'events': c['events'],
+                                  'at': out['diverged_at']}, 'model event list', out['why'])
+        done, robs = replay_events(c['prog'], evs)
+        monitor_creation(ctx, done, robs, {'corpus': os.path.basename(f), 'prog': c['prog'], 'events': c['events']})
+
+
 def run_chunk(ctx, n_programs, mode='plain', p_cmd=0.3):
     drv = ctx.driver()
     rng = ctx.rng
+    if getattr(ctx, 'chunk', 0) == 0:
+        run_corpus(ctx)
     for i in range(n_programs):
         prog = gen_core_program(rng, p_cmd=p_cmd if rng.random() < 0.6 else 0.0)
         table = wfgen.gen_oracle_table(rng, prog, p_err=0.1)
@@ -295,6 +394,11 @@ def run_chunk(ctx, n_programs, mode='plain', p_cmd=0.3):
             ops += [{'at': 10 ** 6, 'op': 'resume'}, {'at': 10 ** 6 + 1, 'op': 'resume'}]
         if has_cmd:
             ctx.count('core', 'engine-commands')
+        if has_pause and mode in ('stop', 'mixed') and rng.random() < 0.5:
+            # stop while commands are waiting in the backlog (they must never be dispatched afterwards)
+            ops = [o for o in ops if o['op'] != 'stop'] + [{'when': 'backlog', 'op': 'stop',
+                                                             'state': rng.choice(['ERROR', 'CANCELLED'])}]
+            ctx.count('core', 'op:stop-with-backlog')
         try:
             # a join restored from the backlog gets a second row: the join logic then reads "the latest row of a
             # task" = the row the database lists last; sequential ids make that the creation order (the model's)
@@ -310,10 +414,13 @@ def run_chunk(ctx, n_programs, mode='plain', p_cmd=0.3):
             ctx.count('core', 'unsupported-item')
             continue
         mo = drv.call('engine.run', {'spec': spec_json(prog), 'events': r['events']})
+        monitor_creation(ctx, r['events'], r['real'], {'prog': prog, 'oracle': table, 'policy': policy, 'seed': seed,
+                                                       'ops': ops, 'id_mode': 'seq' if has_cmd else 'random'})
         ctx.count('core', 'policy:' + policy)
         ctx.count('core', 'events', len(r['events']))
         for o in ops:
-            ctx.count('core', 'op:' + o['op'])
+            if 'when' not in o:
+                ctx.count('core', 'op:' + o['op'])
         joins = any(t.get('join') is not None for t in prog['tasks'])
         ctx.evaluated('core', [r['yaml'], table, policy, seed, ops], nontrivial=joins or bool(ops))
         if isinstance(mo, dict) or isinstance(mo, str):
@@ -329,3 +436,19 @@ def run_chunk(ctx, n_programs, mode='plain', p_cmd=0.3):
                 break
         if ctx.rng.random() < 0.01:
             ctx.sample({'stream': 'core', 'yaml': r['yaml'], 'events': r['events'][:12], 'final': r['real'][-1]})
+
+
+def replay(ctx, rep):
+    """replay of a `core` violation: the recorded case is run again on the real engine and the monitors are read"""
+    r = rep['replay']
+    if 'events' in r and 'policy' not in r:
+        from harness import live_replay as lr
+        evs = lr.parse_events(r['events']) if r['events'] and isinstance(r['events'][0], str) else r['events']
+        done, robs = replay_events(r['prog'], evs)
+        print('replay: %d of %d events delivered; real final %s' % (len(done), len(evs), json.dumps(robs[-1])[:300]))
+        monitor_creation(ctx, done, robs, {k: r[k] for k in ('corpus', 'prog', 'events') if k in r})
+        return
+    rr = run_case(ctx, r['prog'], r['oracle'], r['policy'], r['seed'], ops=[dict(o) for o in r['ops']],
+                  id_mode=r.get('id_mode', 'random'))
+    print('replay: real final %s' % json.dumps(rr['real'][-1])[:300])
+    monitor_creation(ctx, rr['events'], rr['real'], {k: r[k] for k in ('prog', 'oracle', 'policy', 'seed', 'ops', 'id_mode') if k in r})
